@@ -20,6 +20,7 @@ btot = z3.Function("btot", Bag, RealS)                      # total value of a (
 bcard = z3.Function("bcard", Bag, IntS)                     # cardinality of a (finite) bag
 rank = z3.Function("rank", Item, IntS)                      # the items' OWN order (names compare among themselves), unrelated to val; injective
 istype = z3.Function("istype", Item, IntS, BoolS)           # isinstance(item, T) for the type with code T: an unknown predicate on items
+truthy = z3.Function("truthy", Item, BoolS)                # bool(item): unknown for an opaque item (the names 0 and "" are falsy)
 EMPTY = z3.K(Item, z3.IntVal(0))
 
 _counter = [0]
